@@ -9,7 +9,11 @@ CORPUS = ["ca 32 POST none 1 ipout:2 none none 1", "ca 32 POST none 1 ipin:1:den
           "ca 65535 POST none 1 ipout:2 none none 1", "ca 32 POST none 1 km:2 none none 1",
           "rt /v1/refreshRoleRequestingCert password POST none 1 ipout:2 none none 1",
           "rt /v1/refreshRoleRequestingCert password POST none 1 ipin:2:denied none none 1",
-          "rt /certgen/ password POST none 1 ipout:2 none none 1"]
+          "rt /certgen/ password POST none 1 ipout:2 none none 1",
+          # the netblock test is about the TCP peer: a loopback peer naming an inside address in a header is outside
+          "ca 32 POST none 1 ipxff:2 none none 1", "ca 65535 POST none 1 ipxri:2 none none 1", "ca 32 POST none 1 ipinhdr:2 none none 1",
+          "rt /v1/refreshRoleRequestingCert password POST none 1 ipxff:2 none none 1",
+          "rt /certgen/ password POST none 1 ipxri:2 none none 1"]
 
 
 def run(ctx):
@@ -36,6 +40,7 @@ def run(ctx):
         ("POST", "none", "1", "none", "cli:ok:ok:ok:past:future:74:alice", "none", "1"),
         ("POST", "none", "1", "none", "auth:ok:ok:ok:future:future:74:alice", "none", "1"),
         ("POST", "none", "1", "ipout:2", "none", "none", "1"), ("POST", "none", "1", "km:2:denied", "none", "none", "1"),
+        ("POST", "none", "1", "ipxff:2", "none", "none", "1"), ("POST", "none", "1", "ipxri:2", "none", "none", "1"),
         ("POST", "none", "1", "ipin:2:denied", "none", "none", "1"), ("POST", "none", "1", "foreign:2", "none", "none", "1"),
         ("POST", "none", "1", "km:2", "none", "none", "1"), ("POST", "none", "1", "ipin:2", "none", "none", "1"),
         ("POST", "same", "1", "none", good, "none", "1"), ("GET", "none", "1", "none", good, "none", "1"),
